@@ -1,5 +1,6 @@
 """Per-property profiles: how worlds, controllers and faults are drawn (swarm style: every run draws its own subset of
 instruction kinds, fault kinds, generators and sizes) and which oracles are armed."""
+import os
 from .runner import stream
 from .world import gen_world
 from .adversary import KINDS
@@ -73,7 +74,7 @@ WORLD = {
                 network=["haversine", "haversine", "graph"]),
     "C17": dict(p_schedules=0.25, nv=(1, 8), ns=(0, 2), nb=(0, 1), nr=(4, 25), soc=[0.002, 0.004, 0.01, 0.05, 0.3, 0.9], p_fleets=0.15,
                 steps=[60, 60, 30, 15, 120]),
-    "C18": dict(p_schedules=0.25, nv=(4, 10), ns=(1, 2), nb=(0, 1), nr=(0, 6), plug_counts=[1, 1, 2], soc=[0.02, 0.05, 0.1, 0.15],
+    "C18": dict(p_schedules=0.25, nv=(4, 10), ns=(1, 2), nb=(0, 1), nr=(0, 6), plug_counts=[1, 1, 2, 2, 3], soc=[0.02, 0.05, 0.1, 0.15],
                 mech=["bev", "bev", "bev", "ice"], steps=[60, 60, 30, 120, 300], nsteps=(30, 90), charging_thr=[20, 50],
                 extent_m=[300, 800, 1500]),
     "C19": dict(p_schedules=0.25, nv=(1, 6), ns=(1, 3), nb=(1, 2), nr=(5, 30), p_prices=0.5, p_rate=1.0, soc=[0.02, 0.1, 0.3, 0.6],
@@ -175,6 +176,7 @@ def make_plan(prop, seed):
         rs["p_ext"] = r.choice([0.0, 0.1])
     elif prop == "C17":
         rs["p_add_request"] = r.choice([0.0, 0.15, 0.3])
+        rs["p_public_request"] = r.choice([0.0, 0.3])   # under fleets, some inserted requests carry no fleet (open to every fleet)
         if r.random() < 0.3:
             spec["dispatcher"]["valid_dispatch_states"] = r.choice([["idle", "repositioning", "dispatchtrip"], ["idle", "repositioning", "dispatchtrip", "dispatchbase"]])
         adv["p_double"] = 0.5
@@ -189,6 +191,7 @@ def make_plan(prop, seed):
         adv["p_hostile"] = 0.0
         adv["p_instr"] = r.choice([0.05, 0.15, 0.3])
         adv["kinds"] = ["DispatchStation", "DispatchStation", "Idle", "ChargeStation", "Reposition"]
+        adv["p_wave"] = r.choice([0.0, 0.1, 0.25])
         mix = r.choice(["both", "both", "adv"])
     elif prop == "C19":
         rs["log_events"] = True
